@@ -20,7 +20,22 @@ Direct oracles (independent of the model) at quiescence: the server stopped and
 closed every client connection; no client is blocked; every call issued or
 pending after the crash raised RuntimeError; a value returned by `result()` is
 the complete output of that client's own compilation; no worker or manager
-that is still alive keeps running.
+that is still alive keeps running; no node is blocked forever in
+`Process.join()`; a node that shut down told every employee it could still
+reach; no incoming / outgoing thread died.
+
+Fault injection (strengthening round).  A lost connection fails with the class
+the injector chose for it (`EXC`: EOFError, ConnectionResetError,
+BrokenPipeError, ConnectionAbortedError, OSError('handle is closed'),
+OSError('got end of file during message')) at `recv`, and a `send` to a dead
+peer is buffered or raises a chosen class - for server / manager run loops,
+outgoing threads, direct sends of the shutdown handlers, workers (one real
+iteration of `Worker._loop` / `Worker.recv_incoming` per transition) and
+clients.  The label of a delivery on a lost connection carries the class name;
+Model/Crash.lean classifies it (`ConnExc.hard`).  Spawned workers have a
+`Process` whose `join()` blocks forever unless the worker will exit; forked
+workers keep copies of their manager's upstream socket / the attached client
+socket.  harness.c14_sites enumerates every recv/send call site x class.
 
 (A2) real processes: harness.c14_procs (SIGKILL of real workers / managers).
 """
@@ -39,23 +54,95 @@ from harness import c13 as H
 
 BROKEN = ('<<broken frame>>',)
 
+# The documented ways a `multiprocessing.connection.Connection` fails when its peer
+# is gone (names = `ConnExc` of Model/Crash.lean).  Which one a reader / writer gets
+# depends on OS details (FIN vs RST, unread data in the dead peer's socket, a cut
+# frame, who closed which handle): the fault injector chooses.
+EXC = {
+    'eof': lambda: EOFError(),
+    'reset': lambda: ConnectionResetError(104, 'Connection reset by peer'),
+    'pipe': lambda: BrokenPipeError(32, 'Broken pipe'),
+    'aborted': lambda: ConnectionAbortedError(
+        103, 'Software caused connection abort'),
+    'closed': lambda: OSError('handle is closed'),
+    'trunc': lambda: OSError('got end of file during message'),
+}
+RECV_FAMILY = ['eof', 'reset', 'pipe', 'aborted', 'closed', 'trunc']
+SEND_FAMILY = [None, 'reset', 'pipe', 'aborted', 'closed']   # None: buffered
+DEFAULT_FLAV = {'recv': 'eof', 'send': None, 'spawned': True}
 
-# ---------------------------------------------------------------- connections
+
+class NetLog(list):
+    """The shared event log of one network, plus the fault injector's tables:
+    what `recv` raises on a lost connection (`recv_exc[id(conn)]`), what `send`
+    to a dead peer raises (`send_exc`), which connections have a dead peer."""
+
+    def __init__(self):
+        super().__init__()
+        self.recv_exc = {}
+        self.send_exc = {}
+        self.peer_dead = set()
+
+
+class _NextIteration(BaseException):
+    """leaves the real `Worker.recv_incoming` loop after one iteration"""
+
+
+class JoinHang(BaseException):
+    """`Process.join()` of an employee that will never exit: the calling node is
+    blocked forever (BaseException: no handler of the runtime may swallow it)."""
+
+
 class Conn(H.FakeConn):
-    """FakeConn whose `recv` of the BROKEN sentinel raises like a truncated
-    frame does (`Connection._recv`: OSError('got end of file during
-    message'))."""
+    """FakeConn that fails the way a real Connection does: `recv` of the BROKEN
+    sentinel raises like a truncated frame (`Connection._recv`:
+    OSError('got end of file during message')); `recv` on a lost connection
+    raises the class the fault injector chose for this connection; `send` to a
+    dead peer succeeds (kernel buffer) or raises the chosen class."""
     __slots__ = ()
 
     def recv(self):
         if self.closed:
             raise OSError('handle is closed')
         if not self.inbox:
-            raise EOFError
+            raise EXC[getattr(self.log, 'recv_exc', {}).get(id(self), 'eof')]()
         item = self.inbox.popleft()
         if item is BROKEN:
             raise OSError('got end of file during message')
         return item
+
+    def send(self, m):
+        if self.closed:
+            raise OSError('handle is closed')
+        if self.send_error is not None:
+            raise self.send_error
+        log = self.log
+        if id(self) in getattr(log, 'peer_dead', ()):
+            name = log.send_exc.get(id(self))
+            if name is not None:
+                raise EXC[name]()
+        self.sent.append(m)
+        log.append(('send', self, m))
+
+
+class FakeProcess:
+    """`multiprocessing.Process` of a spawned worker as its boss sees it: `join`
+    returns iff the worker process ends - it is dead, or SHUTDOWN / a cut frame /
+    EOF is on its way to an incoming thread that still runs.  Otherwise the
+    caller is blocked forever (JoinHang)."""
+
+    def __init__(self, net, boss, i):
+        self.net, self.boss, self.i = net, boss, i
+
+    def is_alive(self):
+        return self.net.alive[self.i]
+
+    def join(self, timeout=None):
+        net = self.net
+        net.joins += 1
+        if not net.will_exit(self.i):
+            net.hung[self.boss] = self.i
+            raise JoinHang(self.i)
 
 
 class ClientEnd:
@@ -71,6 +158,7 @@ class ClientEnd:
         self.cv = cv
         self.blocked = False
         self.go = False
+        self.exc = 'eof'          # what recv raises once the server is gone
 
     def send(self, m):
         if self.closed:
@@ -87,7 +175,7 @@ class ClientEnd:
             if self.inbox:
                 return self.inbox.popleft()
             if self.eof:
-                raise EOFError
+                raise EXC[self.exc]()
             with self.cv:
                 self.blocked = True
                 self.cv.notify_all()
@@ -236,6 +324,32 @@ def C14Pass(*a):
     return _C14Pass(*a)
 
 
+# attributes `Worker.__init__` may create beyond harness.c13.WORKER_ATTRS (locks
+# added by later `fix:` commits); filled when the code under test has them
+WORKER_EXTRA_ATTRS = {'_mailbox_mutex'}
+_WIA = None
+
+
+def _worker_init_attrs():
+    global _WIA
+    if _WIA is None:
+        from bqskit.runtime.worker import Worker
+        _WIA = H._assigned_self_attrs(Worker.__init__)
+    return _WIA
+
+
+def attr_drift():
+    """harness.c13.check_attr_lists, tolerant of the extra worker locks this
+    harness knows how to fill"""
+    out = []
+    for p in H.check_attr_lists():
+        if p.startswith('Worker.__init__') and \
+                _worker_init_attrs() - WORKER_EXTRA_ATTRS == H.WORKER_ATTRS:
+            continue
+        out.append(p)
+    return out
+
+
 # --------------------------------------------------------------------- network
 TOPOS = {
     # name: (attached, [(parent, kindcode)])   kind 0 server, 1 manager, 2 worker
@@ -245,13 +359,18 @@ TOPOS = {
     'det2x1': (False, [(0, 0), (0, 1), (0, 1), (1, 2), (2, 2)]),
     'det2x2': (False, [(0, 0), (0, 1), (0, 1), (1, 2), (1, 2), (2, 2), (2, 2)]),
     'deep': (False, [(0, 0), (0, 1), (1, 1), (1, 1), (2, 2), (3, 2)]),
+    # >= 3 employees per node: the crashed employee need not be the last one
+    'det1x3': (False, [(0, 0), (0, 1), (1, 2), (1, 2), (1, 2)]),
+    'det3x1': (False, [(0, 0), (0, 1), (0, 1), (0, 1), (1, 2), (2, 2), (3, 2)]),
+    'deep3': (False, [(0, 0), (0, 1), (1, 1), (1, 1), (1, 1), (2, 2), (3, 2),
+                      (4, 2)]),
 }
 
 
 class CrashNet:
     """Real nodes wired by fake connections according to a topology."""
 
-    def __init__(self, topo_name, nclients, script, seed):
+    def __init__(self, topo_name, nclients, script, seed, flav=None):
         import bqskit.runtime.worker as wmod
         import bqskit.runtime.detached as det
         import bqskit.runtime.manager as mgr
@@ -271,7 +390,15 @@ class CrashNet:
         self.children = {i: [j for j in range(1, n) if self.topo[j][0] == i]
                          for i in range(n)}
         self.kind = [k for _, k in self.topo]
-        self.log = []
+        self.log = NetLog()
+        self.flav = dict(DEFAULT_FLAV)
+        self.flav.update(flav or {})
+        self.spawned = bool(self.flav.get('spawned', True))
+        self.hung = {}                  # node -> employee whose join() never returns
+        self.live_at_shutdown = {}      # node -> employees it could still tell
+        self.joins = 0
+        self.incoming_dead = {}         # worker -> exception that killed its incoming thread
+        self.outgoing_dead = {}         # node -> exception that killed its outgoing thread
         self.node = [None] * n          # Sim or Worker
         self.up_conn = [None] * n       # node i's own end towards its boss
         self.down_conn = [None] * n     # the boss's end towards node i
@@ -334,6 +461,8 @@ class CrashNet:
             w.read_receipt_mutex = threading.Lock()
             w._mailbox_mutex = threading.Lock()
             w.incoming_thread = None
+            for name in WORKER_EXTRA_ATTRS & _worker_init_attrs():
+                setattr(w, name, threading.Lock())
             self.node[i] = w
             self.up_conn[i] = w._conn
         self.server = self.node[0]
@@ -345,12 +474,78 @@ class CrashNet:
             sc = self.server.new_client(c)
             sc.__class__ = Conn
             self.srv_client.append(sc)
+        self._install_faults()
         self.script = [list(x) for x in script]    # per client: list of actions
         self.tids = [[] for _ in range(nclients)]  # submitted task ids
         self.markers = {}
         self.rng = random.Random(seed)
         self.tracking = None
         self.flush_net()
+
+    def _install_faults(self):
+        """Spawned workers get a `Process` whose join() behaves like the real one;
+        every connection gets the exception classes it will fail with; a node
+        that hangs in join() stays hung (run's `finally` must not retry)."""
+        fl = self.flav
+        frng = random.Random(fl.get('fseed', 0) * 2654435761 % (1 << 31) + 17)
+
+        def pick(key, family):
+            v = fl.get(key)
+            return frng.choice(family) if v == 'mix' else v
+        for i in range(self.n):
+            if self.kind[i] == 2:
+                continue
+            sim = self.node[i]
+            s = sim.s
+            if self.spawned:
+                for k, c in enumerate(self.children[i]):
+                    if self.kind[c] == 2:
+                        s.employees[k].process = FakeProcess(self, i, c)
+            inner = s.handle_shutdown
+
+            def handle_shutdown(i=i, inner=inner, s=s):
+                if i in self.hung:      # still inside the join() that never returns
+                    raise JoinHang(self.hung[i])
+                if i not in self.live_at_shutdown and not s._h_exit:
+                    self.live_at_shutdown[i] = [
+                        c for c in self.children[i]
+                        if self.alive[c] and self.running(c)
+                        and not self.down_conn[c].closed]
+                inner()
+            s.handle_shutdown = handle_shutdown
+        for i in range(1, self.n):
+            for conn in (self.down_conn[i], self.up_conn[i]):
+                self.log.recv_exc[id(conn)] = pick('recv', RECV_FAMILY) or 'eof'
+                self.log.send_exc[id(conn)] = pick('send', SEND_FAMILY)
+        for cp in self.clients:
+            cp.conn.exc = pick('recv', RECV_FAMILY) or 'eof'
+
+    def mark_dead(self, i):
+        """process i is gone: its peers' connections now have a dead peer"""
+        self.alive[i] = False
+        self.log.peer_dead.add(id(self.down_conn[i]))
+        for c in self.children[i]:
+            self.log.peer_dead.add(id(self.up_conn[c]))
+
+    def will_exit(self, i):
+        """the (spawned worker) process i ends without further help"""
+        if not self.alive[i]:
+            return True
+        if i in self.incoming_dead:
+            return False            # nobody reads its connection any more
+        up, down = self.up_conn[i], self.down_conn[i]
+        for item in list(up.inbox) + list(down.sent):
+            if item is BROKEN or item[0] == self.M.SHUTDOWN:
+                return True
+        return down.closed or not self.alive[self.topo[i][0]]
+
+    def holds_fd_of(self, i):
+        """live processes that inherited node i's upstream socket: workers are
+        forked AFTER `Manager.__init__` accepted the upstream connection"""
+        if self.kind[i] != 1 or not self.spawned:
+            return []
+        return [c for c in self.children[i]
+                if self.kind[c] == 2 and self.alive[c]]
 
     def _nworkers(self, i):
         if self.kind[i] == 2:
@@ -374,8 +569,15 @@ class CrashNet:
             if cp.conn.sent:
                 sc.inbox.extend(cp.conn.sent)
                 del cp.conn.sent[:]
-            if sc.closed:
+            if sc.closed and not self.client_fd_held():
                 cp.conn.eof = True
+
+    def client_fd_held(self):
+        """AttachedServer accepts its client BEFORE it forks the workers: every
+        live worker holds a copy of the client socket, the client sees EOF only
+        when the last holder is gone"""
+        return self.attached and self.spawned and any(
+            self.alive[c] for c in self.children[0] if self.kind[c] == 2)
 
     def running(self, i):
         if self.kind[i] == 2:
@@ -383,8 +585,9 @@ class CrashNet:
         return bool(self.node[i].s.running)
 
     def node_up_open(self, i):
-        """node i's own end towards its boss is open (process alive)"""
-        return self.alive[i] and not self.up_conn[i].closed
+        """some process still holds node i's end of the connection to its boss"""
+        return (self.alive[i] and not self.up_conn[i].closed) \
+            or bool(self.holds_fd_of(i))
 
     def boss_down_open(self, i):
         p = self.topo[i][0]
@@ -402,7 +605,8 @@ class CrashNet:
             if self.alive[i] and not uc.closed and (
                     uc.inbox or not self.boss_down_open(i)):
                 if self.kind[i] == 2:
-                    en.append(('wrecv', i))
+                    if i not in self.incoming_dead:
+                        en.append(('wrecv', i))
                 elif self.running(i):
                     en.append(('recvUp', i))
         for i in range(self.n):
@@ -413,14 +617,16 @@ class CrashNet:
                         or not w._ready_task_ids.empty() or w._delayed_tasks):
                     en.append(('wstep', i))
             elif self.alive[i] and self.running(i) \
-                    and self.node[i].s.outgoing.items:
+                    and self.node[i].s.outgoing.items \
+                    and i not in self.outgoing_dead:
                 en.append(('flush', i))
         if self.hold_recv is not None:
             p, v = self.hold_recv
             items = self.node[p].s.outgoing.items
             if self.alive[p] and self.running(p) and items \
                     and items[0][0] is self.down_conn[v] \
-                    and not self.down_conn[v].closed:
+                    and not self.down_conn[v].closed \
+                    and p not in self.outgoing_dead:
                 return [('flushdrop', p, v)]     # the outgoing thread's send fails first
             if not en or not (self.alive[p] and self.running(p)):
                 self.hold_recv = None
@@ -430,9 +636,13 @@ class CrashNet:
                     sc.inbox or cp.comp.conn is None):
                 en.append(('recvClient', c))
             if cp.conn.blocked:
-                if cp.conn.inbox or cp.conn.eof:
+                if (cp.conn.inbox or cp.conn.eof) and (
+                        cp.conn.eof or not sc.closed):
                     en.append(('cwake', c))
-            elif cp.state == 'idle' and self.script[c]:
+            elif cp.state == 'idle' and self.script[c] and (
+                    cp.conn.eof or not sc.closed):
+                # (between the server's close() and the death of the last
+                # process holding a copy of the socket the client does not call)
                 en.append(('ccall', c))
         return en
 
@@ -516,6 +726,7 @@ class CrashNet:
             sim = None if worker else self.node[i]
             nodes.append({
                 'a': int(self.alive[i]),
+                'pa': int(self.alive[self.topo[i][0]]),
                 'r': 1 if worker else int(bool(sim.s.running)),
                 'c': 0 if worker else int(len(sim.s.employees) == 0),
                 'u': 1 if i == 0 else int(not self.up_conn[i].closed),
@@ -563,6 +774,8 @@ class CrashNet:
         sim.escaped = None
         try:
             sim.cls.run(s)
+        except JoinHang:            # the main thread never leaves Process.join()
+            assert i in self.hung
         except Exception as e:      # `run` re-raises nothing normally
             sim.escaped = e
         new = self.log[n0:]
@@ -592,20 +805,26 @@ class CrashNet:
             _, p, e = tr
             conn = self.down_conn[e]
             head = conn.inbox[0] if conn.inbox else None
+            lost = self.log.recv_exc.get(id(conn), 'eof')
             emits, failed = self._run_loop(p, conn, D.BELOW)
             is_other = head is not None and self.tok(head, 'up').startswith('o.')
             f = int(failed and is_other)
             em = emits if (is_other and not f) else []
-            lines.append(f'recvEmp {p} {e} {f} | ' + ' '.join(em))
+            # on a lost connection the label carries the CLASS the injector
+            # raised; Model/Crash.lean (`ConnExc.hard`) decides what follows
+            lines.append(f'recvEmp {p} {e} {lost if head is None else f} | '
+                         + ' '.join(em))
         elif kind == 'recvUp':
             _, i = tr
             conn = self.up_conn[i]
             head = conn.inbox[0] if conn.inbox else None
+            lost = self.log.recv_exc.get(id(conn), 'eof')
             emits, failed = self._run_loop(i, conn, D.ABOVE)
             special = head is None or self.tok(head, 'down') in ('S', 'B')
             f = int(failed and not special)
             em = emits if (not special and not f) else []
-            lines.append(f'recvUp {i} {f} | ' + ' '.join(em))
+            lines.append(f'recvUp {i} {lost if head is None else f} | '
+                         + ' '.join(em))
         elif kind == 'recvClient':
             _, c = tr
             conn = self.srv_client[c]
@@ -623,6 +842,8 @@ class CrashNet:
                 sim.cls.send_outgoing(sim.s)
             except H.Drained:
                 pass
+            except Exception as e:      # noqa: BLE001 - the outgoing THREAD dies
+                self.outgoing_dead[i] = f'{type(e).__name__}: {e}'
             sim.s.outgoing.budget = 0
             lines.append(f'flush {i}')
         elif kind == 'wstep':
@@ -630,48 +851,87 @@ class CrashNet:
             w = self.node[i]
             self.wmod._worker = w
             n0 = len(w._conn.sent)
+            # ONE iteration of the real `Worker._loop` (so that its `except
+            # Exception` around the step - e.g. a send to the dead boss that
+            # raises - is the real one)
+            real_step = type(w)._try_step_next_ready_task
+            seen = {}
+
+            def once():
+                try:
+                    real_step(w)
+                    self.blocked_workers.discard(i)
+                except H.WouldBlock:
+                    self.blocked_workers.add(i)
+                except Exception as e:      # noqa: BLE001 - passed on to _loop
+                    seen['exc'] = e
+                    raise
+                finally:
+                    if 'exc' not in seen:
+                        w._running = False  # leave `_loop` after this iteration
+            w._try_step_next_ready_task = once
             try:
-                w._try_step_next_ready_task()
-                self.blocked_workers.discard(i)
-            except H.WouldBlock:
-                self.blocked_workers.add(i)
+                type(w)._loop(w)
+            finally:
+                del w._try_step_next_ready_task
+                ended = not w._running and 'exc' in seen
+                w._running = True
             for item in w._conn.sent[n0:]:
                 t = self.tok(item, 'up')
                 if t.startswith('R.'):
                     self.results_sent[item[1].return_address.mailbox_index] = \
                         item[1].result
                 lines.append(f'wsend {i} {t}')
+            if ended:
+                # `_loop` caught a runtime error: `_running = False`, ERROR sent
+                # upstream if that is still possible, the process ends
+                self.mark_dead(i)
+                if not lines or lines[-1] != f'wsend {i} E':
+                    lines.append(f'wsend {i} E')
         elif kind == 'wrecv':
             _, i = tr
             w = self.node[i]
             conn = w._conn
             k0 = len(self.kills)
-            if conn.inbox:
-                holder = conn.inbox.popleft()
+            holder = conn.inbox.popleft() if conn.inbox else None
+            lost = self.log.recv_exc.get(id(conn), 'eof')
+            state = {'n': 0}
 
-                class Once:
-                    def recv(self_inner):
-                        w._running = False
-                        if holder is BROKEN:
-                            raise OSError('got end of file during message')
-                        return holder
-                w._conn = Once()
-            else:
-                class Eof:
-                    def recv(self_inner):
-                        w._running = False
-                        raise EOFError
-                w._conn = Eof()
+            class Once:
+                """ONE iteration of `recv_incoming`: the first recv() delivers
+                the pending item (or fails the way the lost connection does),
+                the next one leaves the real loop"""
+                send = staticmethod(conn.send)
+
+                def recv(self_inner):
+                    state['n'] += 1
+                    if state['n'] > 1:
+                        raise _NextIteration()
+                    if holder is None:
+                        raise EXC[lost]()
+                    if holder is BROKEN:
+                        raise OSError('got end of file during message')
+                    return holder
+            w._conn = Once()
             try:
                 try:
                     type(w).recv_incoming(w)
+                    if len(self.kills) == k0:
+                        # the loop ENDED although the process was not killed: the
+                        # incoming thread is gone, the main thread lives on
+                        self.incoming_dead[i] = 'recv_incoming returned'
+                except _NextIteration:
+                    pass
                 except SystemExit:       # `exit()` after the patched os.kill
                     pass
+                except Exception as e:   # noqa: BLE001 - the incoming THREAD dies
+                    # with a traceback; the process and its main thread live on
+                    self.incoming_dead[i] = f'{type(e).__name__}: {e}'
             finally:
                 w._conn = conn
                 w._running = True
             if len(self.kills) > k0:
-                self.alive[i] = False
+                self.mark_dead(i)
             self.blocked_workers.discard(i)
             lines.append(f'wrecv {i}')
         elif kind == 'ccall':
@@ -688,7 +948,7 @@ class CrashNet:
             lines.append(f'cwake {c}')
         elif kind == 'crash':
             _, i, trunc = tr
-            self.alive[i] = False
+            self.mark_dead(i)
             wrote = 0
             if trunc and self.running(i) and not self.up_conn[i].closed:
                 self.down_conn[i].inbox.append(BROKEN)
@@ -701,12 +961,14 @@ class CrashNet:
             _, i, v = tr
             sim = self.node[i]
             conn = self.down_conn[v]
-            conn.send_error = ConnectionResetError(104, 'Connection reset')
+            conn.send_error = EXC[self.log.send_exc.get(id(conn)) or 'reset']()
             sim.s.outgoing.budget = 1
             try:
                 sim.cls.send_outgoing(sim.s)
             except H.Drained:
                 pass
+            except Exception as e:      # noqa: BLE001 - the outgoing THREAD dies
+                self.outgoing_dead[i] = f'{type(e).__name__}: {e}'
             finally:
                 sim.s.outgoing.budget = 0
                 conn.send_error = None
@@ -727,7 +989,7 @@ class CrashNet:
                 type(w)._loop(w)
             finally:
                 type(w)._try_step_next_ready_task = orig
-            self.alive[i] = False
+            self.mark_dead(i)
             lines.append(f'wsend {i} E')
         else:
             raise InfraError(f'unknown transition {tr}')
@@ -787,14 +1049,14 @@ class CrashNet:
             cp.stop()
 
 
-def new_net(topo_name, nclients, script, seed):
+def new_net(topo_name, nclients, script, seed, flav=None):
     net = CrashNet.__new__(CrashNet)
     net.clog = []
     net.raised = []
     net.returned = []
     net.last_call = {}
     net.last_tid = {}
-    CrashNet.__init__(net, topo_name, nclients, script, seed)
+    CrashNet.__init__(net, topo_name, nclients, script, seed, flav)
     return net
 
 
@@ -855,6 +1117,12 @@ def compare(real, model):
         for k in ('a', 'r', 'c', 'u', 'd', 'S', 'y', 'out', 'in'):
             if k == 'c' and not a['a']:
                 continue
+            # what is written to a DEAD process is unobservable (the write may
+            # be buffered or fail, by the injector's choice; nobody reads it)
+            if k in ('S', 'in') and not a['a']:
+                continue
+            if k in ('out', 'u') and not a.get('pa', 1):
+                continue
             if a[k] != b[k]:
                 diffs.append(f'node{i}.{k}: real {a[k]} model {b[k]}')
         if a['r'] and a['a']:
@@ -910,10 +1178,11 @@ class Case:
     schedule to quiescence.  Records label lines and observed states."""
 
     def __init__(self, topo, nclients, script, seed, prefix, fault,
-                 second=None, cap=4000):
+                 second=None, flav=None, cap=4000):
         self.args = dict(topo=topo, nclients=nclients, script=script,
-                         seed=seed, prefix=prefix, fault=fault, second=second)
-        self.net = new_net(topo, nclients, script, seed)
+                         seed=seed, prefix=prefix, fault=fault, second=second,
+                         flav=flav)
+        self.net = new_net(topo, nclients, script, seed, flav)
         self.lines = [topo_line(self.net, nclients)]
         self.obs = [None]
         self.cap = cap
@@ -1042,6 +1311,36 @@ def oracles(case):
         if typ != 'RuntimeError':
             bad.append((f'client-raised-{typ}:{vk}',
                         f'client {c} call raised {typ}: {text[:100]}'))
+    for p, e in sorted(net.hung.items()):
+        pk = {0: 'server', 1: 'manager'}[net.kind[p]]
+        bad.append((f'node-hung-in-join:{pk}:{vk}',
+                    f'node {p} ({pk}) is blocked forever in Process.join() of its '
+                    f'employee {e}, which was never told to shut down: the node '
+                    'never notifies its boss / closes its clients'))
+    for p, live in sorted(net.live_at_shutdown.items()):
+        for e in live:
+            if not net.sent_shutdown[e]:
+                pk = {0: 'server', 1: 'manager'}[net.kind[p]]
+                bad.append((f'employee-not-told:{pk}:{vk}',
+                            f'node {p} ({pk}) shut down but never sent SHUTDOWN '
+                            f'to its live employee {e}'))
+    for i in range(1, net.n):
+        if net.kind[i] == 1 and net.alive[i] and not net.running(i) \
+                and i not in net.hung and not net.up_conn[i].closed \
+                and net.alive[net.topo[i][0]]:
+            bad.append((f'manager-upstream-open:{vk}',
+                        f'manager {i} stopped but never closed its upstream '
+                        'connection (its boss is not notified)'))
+    for i, why in sorted(net.outgoing_dead.items()):
+        bad.append((f'outgoing-thread-died:{vk}',
+                    f'node {i}: send_outgoing let {why} escape; the outgoing '
+                    'thread is dead, the node forwards nothing any more'))
+    for i, why in sorted(net.incoming_dead.items()):
+        how = 'returned without ending the process' \
+            if why == 'recv_incoming returned' else f'let {why} escape'
+        bad.append((f'worker-incoming-thread-died:{vk}',
+                    f'worker {i}: recv_incoming {how}; the incoming '
+                    'thread is dead, the worker idles forever and never exits'))
     for (c, tid, val) in net.returned:
         ok = (isinstance(val, tuple) and len(val) == 2
               and val[1].get('c14_done') is True
@@ -1282,6 +1581,7 @@ SMALL = [[('submit', 1, 2, 0), ('result', 0)]]
 
 def run_batch(specs):
     """Run the cases, mirror them through ONE driver process."""
+    specs = [tuple(sp) + (None,) * (8 - len(sp)) for sp in specs]
     cases = [Case(*sp).run() for sp in specs]
     lines = [ln for c in cases for ln in c.lines]
     out = drv('crash', lines)
@@ -1293,7 +1593,7 @@ def run_batch(specs):
 
 
 def summarise(spec, case, answers):
-    topo, ncl, script, seed, prefix, fault, second = spec
+    topo, ncl, script, seed, prefix, fault, second, flav = spec
     diffs, stats = mirror_answers(case, answers)
     bad = oracles(case)
     bound_ok = True
@@ -1308,8 +1608,11 @@ def summarise(spec, case, answers):
     if fault is not None:
         vk = {1: 'manager', 2: 'worker'}[net.kind[fault[1]]]
     return {
-        'args': [topo, ncl, script, seed, prefix, fault, second],
+        'args': [topo, ncl, script, seed, prefix, fault, second, flav],
         'faulted': case.fault_at is not None, 'victim_kind': vk,
+        'hung': sorted(net.hung), 'joins': net.joins,
+        'victim_pos': None if fault is None else
+        _victim_pos(net, fault[1]),
         'steps': case.steps, 'labels': len(case.lines), 'diffs': diffs,
         'oracle': bad, 'bound_ok': bound_ok, 'stats': stats,
         'quiescent': case.quiescent, 'outreset': net.outreset_done,
@@ -1321,6 +1624,15 @@ def summarise(spec, case, answers):
             for e in net.node[i].system_errors),
         'phase': phase_of(case),
     }
+
+
+def _victim_pos(net, v):
+    """first / middle / last / only among its boss's employees"""
+    sib = net.children[net.topo[v][0]]
+    if len(sib) == 1:
+        return 'only'
+    k = sib.index(v)
+    return 'first' if k == 0 else 'last' if k == len(sib) - 1 else 'middle'
 
 
 def phase_of(case):
@@ -1339,6 +1651,18 @@ def phase_of(case):
         else 'idle'
 
 
+def _flav_for(rng, k=None):
+    """seeded choice of how lost connections fail in one case"""
+    r = rng.random()
+    if r < 0.25:
+        return {'recv': 'eof', 'send': None, 'spawned': rng.random() < 0.8}
+    if r < 0.6:
+        return {'recv': rng.choice(RECV_FAMILY), 'send': rng.choice(SEND_FAMILY),
+                'spawned': rng.random() < 0.8}
+    return {'recv': 'mix', 'send': 'mix', 'spawned': rng.random() < 0.8,
+            'fseed': rng.randrange(10 ** 6)}
+
+
 def chunk_exhaustive(args):
     """every prefix x every victim of one small workload"""
     _quiet()
@@ -1346,12 +1670,13 @@ def chunk_exhaustive(args):
     base = Case(topo, ncl, script, seed, 10 ** 6, None).run()
     T = base.steps
     n = len(TOPOS[topo][1])
-    specs = [(topo, ncl, script, seed, 10 ** 6, None, None)]
+    rng = random.Random(seed * 31 + offset)
+    specs = [(topo, ncl, script, seed, 10 ** 6, None, None, None)]
     for prefix in range(offset, T + 1, stride):
         for victim in range(1, n):
             trunc = (prefix + victim) % 3 == 0
             specs.append((topo, ncl, script, seed, prefix,
-                          ('crash', victim, trunc), None))
+                          ('crash', victim, trunc), None, _flav_for(rng)))
     return run_batch(specs)
 
 
@@ -1364,7 +1689,7 @@ def chunk_sampled(args):
     T = base.steps
     n = len(TOPOS[topo][1])
     kinds = [k for _, k in TOPOS[topo][1]]
-    specs = [(topo, ncl, script, seed, 10 ** 6, None, None)]
+    specs = [(topo, ncl, script, seed, 10 ** 6, None, None, None)]
     for _ in range(count):
         prefix = rng.randrange(T + 1)
         victim = rng.randrange(1, n)
@@ -1379,7 +1704,38 @@ def chunk_sampled(args):
         if rng.random() < 0.4:
             second = (rng.randrange(0, 10), rng.randrange(1, n),
                       rng.random() < 0.3)
-        specs.append((topo, ncl, script, seed, prefix, fault, second))
+        specs.append((topo, ncl, script, seed, prefix, fault, second,
+                      _flav_for(rng)))
+    return run_batch(specs)
+
+
+def chunk_family(args):
+    """The enumeration behind `C14_connection_lost_any_class`: in one topology,
+    EVERY victim (first / middle / last employee of its boss; worker, manager,
+    mid manager) x EVERY class `recv` can raise on the lost connection x a
+    rotating class for `send` to the dead peer, at two crash points (idle and
+    mid-compilation).  Each reader kind of the runtime (attached / detached
+    server and manager on an employee connection, manager on its upstream
+    connection, worker, client) therefore meets every class; the model gets the
+    class NAME in the label and decides by `ConnExc.hard`."""
+    _quiet()
+    topo, ncl, script, seed, spawned, quick_all = args
+    base = Case(topo, ncl, script, seed, 10 ** 6, None).run()
+    T = base.steps
+    n = len(TOPOS[topo][1])
+    rng = random.Random(seed * 77 + 5)
+    specs = []
+    k = 0
+    for victim in range(1, n):
+        for recv in RECV_FAMILY:
+            send = SEND_FAMILY[k % len(SEND_FAMILY)]
+            k += 1
+            mid = rng.randrange(T // 3, max(T // 3 + 1, T - 2))
+            both = quick_all or recv in ('eof', 'reset')
+            for prefix in ((0, mid) if both else ((0, mid)[k % 2],)):
+                specs.append((topo, ncl, script, seed, prefix,
+                              ('crash', victim, False), None,
+                              {'recv': recv, 'send': send, 'spawned': spawned}))
     return run_batch(specs)
 
 
@@ -1401,12 +1757,14 @@ def replay_case(ck: Check):
     rp = body.get('replay', body)
     print('replaying', body.get('signature'), '-', body.get('what', '')[:200])
     if rp.get('kind') == 'inproc':
-        topo, ncl, script, seed, prefix, fault, second = rp['args']
+        args = list(rp['args']) + [None] * (8 - len(rp['args']))
+        topo, ncl, script, seed, prefix, fault, second, flav = args
         script = [[tuple(a) for a in cl] for cl in script]
         fault = tuple(fault) if fault else None
         second = tuple(second) if second else None
-        res = run_batch([(topo, ncl, script, seed, prefix, fault, second)])[0]
-        case = Case(topo, ncl, script, seed, prefix, fault, second).run()
+        res = run_batch([(topo, ncl, script, seed, prefix, fault, second,
+                          flav)])[0]
+        case = Case(topo, ncl, script, seed, prefix, fault, second, flav).run()
         for ln in case.lines:
             print('  ', ln)
         print('differences from the model:', res['diffs'])
@@ -1417,6 +1775,16 @@ def replay_case(ck: Check):
         if res['diffs']:
             ck.violation('model-mismatch:replay', res['diffs'][0][:300], rp,
                          found_input=False)
+    elif rp.get('kind') == 'sites':
+        from harness import c14_sites
+        from harness.common import REPO
+        sviol, sn, stable = c14_sites.site_matrix(drv, REPO)
+        print(json.dumps(stable, indent=1))
+        for sig, text, rp2, found in sviol:
+            if sig == body.get('signature') or rp.get('site') == rp2.get('site'):
+                print(sig, '-', text)
+                ck.violation(sig, text, rp2, found_input=found)
+        print(f'site matrix: {sn} observations, {len(sviol)} disagreements')
     elif rp.get('kind') == 'procs':
         from harness import c14_procs as P
         res = P.run_case(rp['case'], hard_timeout=300, lock_wait=1800)
@@ -1442,7 +1810,7 @@ def run(ck: Check):
     a2_thread = threading.Thread(target=_a2_batch, args=(ck, a2, thorough),
                                  daemon=True)
     a2_thread.start()
-    for p in H.check_attr_lists():
+    for p in attr_drift():
         ck.violation('harness-attr-drift', 'the attributes a runtime '
                      f'__init__ creates changed: {p}', {'problem': p},
                      found_input=False)
@@ -1456,21 +1824,32 @@ def run(ck: Check):
     rng = ck.rng
     chunks = []
     if thorough:
-        for topo in ['att2', 'att3', 'det1x2', 'det2x1', 'deep']:
+        for topo in ['att2', 'att3', 'det1x2', 'det2x1', 'deep', 'det1x3',
+                     'det3x1']:
             sd = rng.randrange(10 ** 6)
             for off in range(4):    # every prefix, spread over 4 processes
                 chunks.append(('ex', (topo, 1, SMALL, sd, 4, off)))
     else:
-        # every prefix of the attached workload, every 3rd (seed-rotated) of
-        # the detached one
-        # (seed-rotated strides: seeds 0..3 together cover every prefix)
-        sd = rng.randrange(10 ** 6)
-        chunks.append(('ex', ('att2', 1, SMALL, sd, 2, ck.seed % 2)))
-        chunks.append(('ex', ('det1x2', 1, SMALL, rng.randrange(10 ** 6), 6,
+        # seed-rotated strides: a few seeds together cover every prefix
+        chunks.append(('ex', ('att3', 1, SMALL, rng.randrange(10 ** 6), 3,
+                              ck.seed % 3)))
+        chunks.append(('ex', ('det1x3', 1, SMALL, rng.randrange(10 ** 6), 6,
                               ck.seed % 6)))
-    per = 3 if not thorough else 40
+        chunks.append(('ex', ('det1x2', 1, SMALL, rng.randrange(10 ** 6), 6,
+                              (ck.seed + 3) % 6)))
+    # the exception-family enumeration: every victim position x every class
+    fam = ['att3', 'det1x3', 'det3x1', 'deep'] + (
+        ['deep3', 'det2x2', 'att2'] if thorough else [])
+    for k, topo in enumerate(fam):
+        for spawned in ((True, False) if thorough else (True,)):
+            ncl = 2 if (thorough and k % 2) else 1
+            chunks.append(('fam', (topo, ncl, make_script(rng, ncl),
+                                   rng.randrange(10 ** 6), spawned,
+                                   thorough)))
+    per = 4 if not thorough else 40
     plan = [('att2', 1), ('att3', 1), ('det1x2', 1), ('det1x2', 2),
-            ('det2x1', 2), ('det2x2', 1), ('deep', 1), ('deep', 2)]
+            ('det2x1', 2), ('det2x2', 1), ('deep', 1), ('deep', 2),
+            ('det1x3', 2), ('det3x1', 1), ('deep3', 1)]
     reps = 1 if not thorough else 6
     for _ in range(reps):
         for topo, ncl in plan:
@@ -1487,10 +1866,13 @@ def run(ck: Check):
     import bqskit.runtime.manager  # noqa: F401
     import bqskit.runtime.worker  # noqa: F401
     C14Pass(0, 1, 1, 0)
-    with mp.get_context('fork').Pool(nproc) as pool:
-        asyncs = [pool.apply_async(
-            chunk_exhaustive if k == 'ex' else chunk_sampled, (a,))
-            for k, a in chunks]
+    # (fresh interpreters: pool workers FORKED from a process that imported
+    # bqskit ran the simulation ~10x slower on this machine - copy-on-write
+    # traffic of the big heap)
+    with mp.get_context('spawn').Pool(nproc) as pool:
+        fns = {'ex': chunk_exhaustive, 'sa': chunk_sampled,
+               'fam': chunk_family}
+        asyncs = [pool.apply_async(fns[k], (a,)) for k, a in chunks]
         for a in asyncs:
             results += a.get(timeout=1500 if thorough else 600)
 
@@ -1498,7 +1880,8 @@ def run(ck: Check):
     n_faulted = 0
     for r in results:
         ck.count((r['args'][0], r['args'][4], r['args'][5], r['args'][6],
-                  r['args'][2]), nontrivial=r['faulted'], n=r['labels'])
+                  r['args'][2], r['args'][7]), nontrivial=r['faulted'],
+                 n=r['labels'])
         ck.bump('topology', r['args'][0])
         ck.bump('fault_phase', r['phase'])
         if r['faulted']:
@@ -1506,6 +1889,13 @@ def run(ck: Check):
             ck.bump('fault_kind', str(r['args'][5][0]) + ':'
                     + str(r['victim_kind']))
             ck.bump('second_crash', str(r['args'][6] is not None))
+            fl = r['args'][7] or DEFAULT_FLAV
+            ck.bump('lost_connection_recv_class', str(fl.get('recv')))
+            ck.bump('dead_peer_send_class', str(fl.get('send')))
+            ck.bump('workers_spawned_by_their_boss', str(fl.get('spawned')))
+            ck.bump('victim_position_among_siblings',
+                    f"{r['victim_kind']}:{r['victim_pos']}")
+            ck.bump('process_joins_executed', None, r['joins'])
             ck.bump('client_outcomes', 'raised', r['raised'])
             ck.bump('client_outcomes', 'returned-before-fault', r['returned'])
             if r['keyerror_after_shutdown']:
@@ -1543,10 +1933,28 @@ def run(ck: Check):
         ck.violation(sig, f'Compiler call {key}: {outcome}',
                      {'kind': 'client', 'case': key}, found_input=True)
 
+    # every recv/send call site of the runtime x every exception class of the
+    # family, on the real handlers, against the model's `react`
+    from harness import c14_sites
+    from harness.common import REPO
     t0 = time.time()
-    a2_thread.join(timeout=float(os.environ.get('C14_A2_SECONDS', 0) or 0)
-                   + float(os.environ.get('C14_LOCK_WAIT', 0) or 600) * 3
-                   + (2400 if thorough else 700))
+    sviol, sn, stable = c14_sites.site_matrix(drv, REPO)
+    ck.count('site-matrix', n=sn)
+    ck.coverage['exception_class_x_site_observations'] = sn
+    ck.coverage['exception_class_x_site_reactions'] = stable
+    ck.coverage['seconds_site_matrix'] = round(time.time() - t0, 1)
+    per_site = collections.Counter()
+    for sig, text, rp, found in sviol:
+        site = sig.split(':')[1] if sig.startswith('exception-class') else sig
+        per_site[site] += 1
+        if per_site[site] <= 2:
+            ck.violation(sig, text, rp, found_input=found)
+
+    t0 = time.time()
+    a2_thread.join(timeout=(
+        float(os.environ.get('C14_A2_SECONDS', 0) or 0)
+        + float(os.environ.get('C14_LOCK_WAIT', 0) or 600) * 3 + 2400)
+        if thorough else 330)
     ck.coverage['seconds_waiting_for_real_process_batch'] = round(
         time.time() - t0, 1)
     if a2_thread.is_alive():
@@ -1557,7 +1965,11 @@ def run(ck: Check):
         'real DetachedServer/AttachedServer/Manager/Worker/Compiler objects, '
         'one real run-loop iteration per transition, crash after every prefix '
         'of small workloads + seeded samples (second crash, truncated frame, '
-        'worker runtime error, outgoing-thread reset); every node state, '
+        'worker runtime error, outgoing-thread reset); lost connections fail '
+        'with every documented exception class (recv and send, every node '
+        'kind; victim first / middle / last of >= 3 employees; Process.join '
+        'and inherited sockets simulated); every recv/send call site x class '
+        'on the real handlers against the model table `react`; every node state, '
         'channel, flag, table and client outcome compared with bqdriver crash '
         'after every transition; direct oracles at quiescence; real-process '
         'SIGKILL runs')
@@ -1565,6 +1977,10 @@ def run(ck: Check):
         'handler atomicity: one run-loop iteration / one outgoing item / one '
         'worker step is a transition (the GIL interleavings inside a handler '
         'are not explored)',
+        'which exception class a lost connection raises where is an input of '
+        'the fault injector (all six documented classes at every site), not '
+        'derived from an OS model; a peer that vanishes without FIN/RST is '
+        'never reported by the OS and is outside the model',
         'OS truths only validated by the real-process runs (exploration, not '
         'proof): a dead peer yields EOF after the buffered data, process exit, '
         'process.join() returning, time bounds',
@@ -1582,11 +1998,14 @@ def _sig(sig, r):
 
 
 def _a2_batch(ck, a2, thorough):
-    """Real-process kills.  Quick: the three core cases (attached worker, 3-level
-    mid manager, detached manager), started as long as the run-time budget lasts;
-    the machine-wide runtime lock is waited for (C14_LOCK_WAIT seconds, default
-    600) - on an idle machine there is no wait.  Thorough: the seeded matrix in
-    a time box (C14_A2_SECONDS)."""
+    """Real-process kills.  Quick: at most two of the core cases (rotated by seed:
+    attached worker / first of three workers of a manager / 3-level mid manager /
+    manager killed with unread worker data), a case is started only while the
+    check is younger than 75 s; the machine-wide runtime lock is waited for at
+    most C14_LOCK_WAIT seconds (default 45, never more than 60) - if another
+    check holds a runtime the real-process cases are SKIPPED with a coverage
+    note (the in-process part covers the same histories).  Thorough: the seeded
+    matrix in a time box (C14_A2_SECONDS)."""
     if os.environ.get('C14_NO_A2'):
         a2['skipped'] = 'disabled by C14_NO_A2 (development switch)'
         return
@@ -1597,27 +2016,33 @@ def _a2_batch(ck, a2, thorough):
         return
     try:
         rng = random.Random(ck.seed * 7 + 1)
-        cases = P.default_cases(rng, 220 if thorough else 6)
+        cases = P.default_cases(rng, 220 if thorough else 8)
+        lock_wait = float(os.environ.get('C14_LOCK_WAIT', 0) or
+                          (600 if thorough else 45))
         if not thorough:
-            core = [cases[0], cases[3], cases[2]]
-            k = ck.seed % 3
-            cases = core[k:] + core[:k]
+            core = [cases[0], cases[6], cases[3], cases[7], cases[2]]
+            k = ck.seed % len(core)
+            cases = (core[k:] + core[:k])[:2]
+            lock_wait = min(lock_wait, 60.0)
         budget = float(os.environ.get('C14_A2_SECONDS', 0) or
-                       (1700 if thorough else 100))
-        lock_wait = float(os.environ.get('C14_LOCK_WAIT', 0) or 600)
+                       (1700 if thorough else 75))
         used = 0.0
         for case in cases:
-            if used > budget:
+            age = time.time() - ck.t0
+            if (used if thorough else age) > budget:
                 a2['skipped'] = (a2['skipped'] or '') + \
                     f' time budget reached after {len(a2["results"])} runs;'
                 break
             t0 = time.time()
-            res = P.run_case(case, hard_timeout=(360 if thorough else 200),
-                             lock_wait=lock_wait)
+            res = P.run_case(case, hard_timeout=(360 if thorough else 110),
+                             retries=(1 if thorough else 0),
+                             lock_wait=lock_wait if (thorough or
+                                                     not a2['results'])
+                             else min(lock_wait, 20.0))
             if res.get('lock_busy'):
                 a2['skipped'] = (a2['skipped'] or '') + \
                     f' runtime lock busy for {lock_wait:.0f} s (another check' \
-                    ' holds a runtime);'
+                    ' holds a runtime): real-process cases skipped;'
                 if not thorough:
                     break
                 continue
@@ -1634,7 +2059,7 @@ def _a2_report(ck, a2):
     ck.coverage['real_process_runs'] = len(a2['results'])
     if a2['skipped']:
         ck.coverage['real_process_skipped'] = a2['skipped'].strip()
-        if ck.tier != 'quick' or len(a2['results']) < 2:
+        if ck.tier != 'quick' or len(a2['results']) < 1:
             print('NOTE: C14 ******** real-process kill runs incomplete: '
                   f'{len(a2["results"])} done; {a2["skipped"].strip()} ********',
                   flush=True)
